@@ -308,6 +308,8 @@ namespace GeographicLib {
                      const GeodesicLine& lineY,
                      Math::real maxdist, const XPoint& p0) const {
     real maxdistx = maxdist + _delta;
+    if (!(maxdistx < _d3 * 46340)) // m * m must fit into an int
+      throw GeographicErr("maxdist is too large (or not finite)");
     const int m = int(ceil(maxdistx / _d3)), // process m x m set of tiles
       m2 = m*m + (m - 1) % 2,                // add center tile if m is even
       n = m - 1;                             // Range of i, j = [-n:2:n]
